@@ -101,7 +101,7 @@ theorem step_decreases (cfg : Cfg) (c : Nat) (s : Shared) (l : Locals) (spur : B
     · exact ⟨⟨hn, rfl, fun _ => hw rfl, by intro p i h; cases h⟩, by simp [fuel]⟩
     · exact ⟨⟨hn, rfl, fun h => by simp [preGen] at h, by intro p i h; cases h⟩, by simp [fuel]⟩
   | nfDbg p =>
-    simp only [stepLP]
+    simp only [stepLP, hn']
     refine ⟨⟨hn, rfl, fun _ => hw rfl, ?_⟩, by simp [fuel]⟩
     intro p' i h; cases h; exact hsc
   | probe p i =>
@@ -136,7 +136,7 @@ theorem step_decreases (cfg : Cfg) (c : Nat) (s : Shared) (l : Locals) (spur : B
     exact ⟨⟨hn, rfl, fun _ => hw rfl, by intro p' i' h; cases h⟩, by simp [fuel]⟩
   | nhDbg =>
     have := hw rfl
-    simp only [stepLP, this, if_false]
+    simp only [stepLP, hn', this, if_false]
     exact ⟨⟨hn, rfl, fun h => by simp [preGen] at h, by intro p' i' h; cases h⟩, by simp [fuel]⟩
   | f1 =>
     simp only [stepLP]
@@ -148,7 +148,7 @@ theorem step_decreases (cfg : Cfg) (c : Nat) (s : Shared) (l : Locals) (spur : B
     simp only [stepLP]
     split <;> exact ⟨⟨hn, rfl, fun h => by simp [preGen] at h, by intro p' i' h; cases h⟩, by simp [fuel]⟩
   | chDbg g cand =>
-    simp only [stepLP]
+    simp only [stepLP, hn']
     exact ⟨⟨hn, rfl, fun h => by simp [preGen] at h, by intro p' i' h; cases h⟩, by simp [fuel]⟩
   | f4 g cand =>
     simp only [stepLP]
